@@ -8,9 +8,11 @@
     CLAUSE MAP (statement of C03 in properties.jsonl -> theorems here; "corr" = correspondence/oracle only)
     1. same dimension: factor = ratio of SI magnitudes under the selected set
          C03_same_dimension_is_SI_ratio, C03_parse_is_algebraic (ALL expressions, both sets); magnitudes anchored to CODATA:
-         C03_anchored, C03_anchored_misc, C03_au_units_consistent (finite tables).  On the TEXT users type: only
-         C03_text_reader_examples (symbols, juxtaposition, precedence: pinned instances) + corr text stream (the model reads
-         the same strings as the implementation); a render/parse round trip for all expressions is still MISSING.
+         C03_anchored, C03_anchored_misc, C03_au_units_consistent (finite tables).  On the TEXT users type, wave 4:
+         C03_text_roundtrip (the reader is a left inverse of the fully parenthesised rendering, ALL expressions with canonical
+         atoms and non-negative integer numerals), C03_text_roundtrip_conv, C03_text_canonical_atoms (68 names x 25 prefixes);
+         symbols, juxtaposition, precedence without parentheses, decimal fractions: C03_text_reader_examples (pinned
+         instances) + corr text stream (the model reads the same strings as the implementation).
     2. 1 on the diagonal, reciprocal, multiplicative along chains: C03_diagonal, C03_reciprocal, C03_chain (ALL expressions).
     3. linear in a numeric prefactor written into either expression: C03_linear_in_source_prefactor /
          C03_linear_in_target_prefactor (same dimension) and, wave 3, C03_linear_source_all_paths / C03_linear_target_all_paths
@@ -22,7 +24,8 @@
          C03_default_route_bridge + C03_bridge_constants_are_physics + C03_all_named_bridges_covered (sources naming no NIST
          unit, ALL source and target expressions), C03_relationships_consistent_with_physics (the published values themselves).
          FALSE for SI-prefixed NIST sources: C03_prefixed_bridge_refuted, C03_prefixed_bridge_characterised (known finding).
-         energy <-> energy/mol (N_A hops): corr only (model + oracle), no separate theorem beyond the linearity laws.
+         energy <-> energy/mol (N_A hops), wave 4: C03_energy_to_per_mole, C03_per_mole_to_energy (ALL source and target
+         expressions, prefixed or not: x N_A resp. / N_A of the same set), C03_per_mole_roundtrip (exactly 1).
     6. a -> b then b -> a gives 1: same dimension C03_reciprocal; bridges, wave 3: C03_published_roundtrip (every published
          pair of opposite relationships), C03_default_route_roundtrip (ALL expressions naming no NIST unit, both directions).
     7. unrelated dimensions raise: C03_unrelated_dims_error, C03_number_only_if_dimension_reached (ALL expressions).
@@ -31,11 +34,14 @@
          C03_cache_transparent_str_history (EVERY history of str calls), C03_cache_stable_same_dimension (Quantity keys, same
          dimension), C03_cache_poisoned_refuted (Quantity keys across a bridge: the known finding leaks to an UNPREFIXED
          request through the cache).  Datum.to_units, the default singleton, covalentradii.get(units=...) (C17): corr only.
-    9. state: the lazily built registry [_ureg] per context object: corr only (history streams on fresh and long-lived objects). *)
+    9. state: the lazily built registry [_ureg] per context object: corr only (history streams on fresh and long-lived objects).
+       Wave 4: contexts of BOTH sets alive in one process (the model's [conv_ctx c] is a function of the set alone): corr only,
+       stream cross-context — 40 requests whose 2014 and 2018 factors differ by more than 4x the oracle tolerance, put to the
+       other set's object first, in a process of its own (so the recorded history replays from `import qcelemental`). *)
 From Coq Require Import ZArith QArith Qpower Qabs List String Bool.
 Require Import QV.Common.Outcome QV.Common.DecC02 QV.Common.UnitsC03.
 Require Import QV.Gen.Codata2014 QV.Gen.Codata2018 QV.Gen.UregDefs.
-Require Import QV.Model.Units QV.Model.UnitsText QV.Model.UnitsGlue QV.Proofs.Units QV.Proofs.UnitsGlue.
+Require Import QV.Model.Units QV.Model.UnitsText QV.Model.UnitsGlue QV.Proofs.Units QV.Proofs.UnitsGlue QV.Proofs.UnitsNa QV.Proofs.UnitsTextRT.
 Import ListNotations.
 Open Scope string_scope.
 Open Scope Q_scope.
@@ -488,8 +494,66 @@ Theorem C03_cache_poisoned_refuted :
     /\ cf_pure C2014 (AQty 1000000 (UAtom "" "hertz")) (AStr "hartree") = Ok w /\ v == 1000000 * w.
 Proof. exact cache_poisoned_witness. Qed.
 
-(** ** Reading text (Model/UnitsText.v): precedence, juxtaposition, symbol/alias/prefix resolution — pinned instances; the
-    general tie is the text stream of the correspondence (the model reads the same strings as the implementation). *)
+(** ** Wave 4.  energy <-> energy/mol (the Avogadro hops of the context graph).  Whatever the source expression a of dimension
+    energy and the target expression b of dimension energy/mol — SI-prefixed or not, compound or not; these hops never consult
+    NIST unit names, so there is no [find_nist_unit] hypothesis — the factor is (SI magnitude of a) x N_A / (SI magnitude of b)
+    with N_A the "Avogadro constant" of the SAME set; the opposite direction divides by N_A; the round trip is exactly 1. *)
+Theorem C03_energy_to_per_mole : forall c a b ka ca kb cb,
+  parse (reg c) a = Ok (ka, ca) -> parse (reg c) b = Ok (kb, cb) -> ~ kb == 0 ->
+  cdim (reg c) ca = dE -> cdim (reg c) cb = dEmol ->
+  exists v NA, codata_value c "avogadro constant" = Some NA /\ conv_ctx c a b = Ok v
+               /\ v == (ka * cmag (reg c) ca) * NA / (kb * cmag (reg c) cb).
+Proof. exact energy_to_per_mole. Qed.
+
+Theorem C03_per_mole_to_energy : forall c a b ka ca kb cb,
+  parse (reg c) a = Ok (ka, ca) -> parse (reg c) b = Ok (kb, cb) -> ~ kb == 0 ->
+  cdim (reg c) ca = dEmol -> cdim (reg c) cb = dE ->
+  exists v NA, codata_value c "avogadro constant" = Some NA /\ conv_ctx c a b = Ok v
+               /\ v == (ka * cmag (reg c) ca) / NA / (kb * cmag (reg c) cb).
+Proof. exact per_mole_to_energy. Qed.
+
+Theorem C03_per_mole_roundtrip : forall c a b ka ca kb cb,
+  parse (reg c) a = Ok (ka, ca) -> parse (reg c) b = Ok (kb, cb) -> ~ ka == 0 -> ~ kb == 0 ->
+  cdim (reg c) ca = dE -> cdim (reg c) cb = dEmol ->
+  exists v w, conv_ctx c a b = Ok v /\ conv_ctx c b a = Ok w /\ v * w == 1.
+Proof. exact per_mole_roundtrip. Qed.
+
+(* the hypotheses are inhabited by a prefixed source: kcal -> kJ/mol is 4.184 N_A (2014: N_A = 6.022140857e23) *)
+Example C03_ex_per_mole :
+  cdim (reg C2014) [(("kilo", "calorie"), 1%Z)] = dE
+  /\ cdim (reg C2014) [(("kilo", "joule"), 1%Z); (("", "mole"), (-1)%Z)] = dEmol
+  /\ codata_value C2014 "avogadro constant" = Some (602214085700000000000000 # 1)
+  /\ conv_ctx C2014 (UAtom "kilo" "calorie") (UDiv (UAtom "kilo" "joule") (UAtom "" "mole")) = Ok (Qred ((4184 # 1000) * (602214085700000000000000 # 1))).
+Proof. repeat split; vm_compute; reflexivity. Qed.
+
+(** ** Reading text (Model/UnitsText.v).  Wave 4: render/parse round trip for ALL expressions.  [sexpr] (Proofs/UnitsTextRT.v) is
+    a unit expression whose numbers are decimal digit strings (non-negative integers; exponents with an optional minus);
+    [chars s] is the fully parenthesised text that the harness's render() writes — name, digits, "((a) * (b))", "((a) / (b))",
+    "((a) ** (n))" — and [den s] the expression it denotes.  For every s whose atoms are canonical ([swf]: the spelling
+    prefix++unit is an identifier and resolves to exactly (prefix, unit)) the reader returns exactly [den s]: tokenizer
+    ([lex_chars]) and precedence/parenthesis parser ([parse_toks]) are left inverses of rendering, with the model's own fuel. *)
+Theorem C03_text_roundtrip : forall s, swf s -> parse_text (string_of_list_ascii (chars s)) = inr (den s).
+Proof. exact text_roundtrip. Qed.
+
+(** ... hence the str entry point on rendered texts is the expression-level conversion all other theorems speak about *)
+Theorem C03_text_roundtrip_conv : forall c sa sb, swf sa -> swf sb ->
+  conv_text c (string_of_list_ascii (chars sa)) (string_of_list_ascii (chars sb)) = conv_ctx c (den sa) (den sb).
+Proof. exact text_roundtrip_conv. Qed.
+
+(** ... and every SI prefix (or none) on every unit name of the registry that is its own spelling (68 names x 25) is canonical *)
+Theorem C03_text_canonical_atoms : forall c p b, In p prefix_names -> In b (spellable_units c) -> swf (SAtom p b).
+Proof. exact canonical_atoms. Qed.
+
+Example C03_ex_text_roundtrip :
+  let s := SDiv (SMul (SNum D2 [D5]) (SAtom "kilo" "calorie")) (SPow (SAtom "" "mole") true D1 []) in
+  swf s /\ string_of_list_ascii (chars s) = "((((25) * (kilocalorie))) / (((mole) ** (-1))))"
+  /\ den s = UDiv (UMul (UNum 25) (UAtom "kilo" "calorie")) (UPow (UAtom "" "mole") (-1))
+  /\ List.length (spellable_units C2014) = 68%nat /\ List.length prefix_names = 25%nat
+  /\ In "kilo" prefix_names /\ In "calorie" (spellable_units C2018).
+Proof. cbv zeta. repeat split; try (vm_compute; reflexivity); try (vm_compute; tauto); try (intros _; vm_compute; reflexivity). Qed.
+
+(** Pinned instances of what is NOT in the rendered form: symbols, juxtaposition, precedence without parentheses; the general tie
+    for those is the text stream of the correspondence (the model reads the same strings as the implementation). *)
 Theorem C03_text_reader_examples :
   parse_text "kcal/mol" = inr (UDiv (UAtom "kilo" "calorie") (UAtom "" "mole"))
   /\ parse_text "1/m s" = inr (UMul (UDiv (UNum 1) (UAtom "" "meter")) (UAtom "" "second"))
@@ -547,4 +611,10 @@ Print Assumptions C03_cache_transparent.
 Print Assumptions C03_cache_transparent_str_history.
 Print Assumptions C03_cache_stable_same_dimension.
 Print Assumptions C03_cache_poisoned_refuted.
+Print Assumptions C03_energy_to_per_mole.
+Print Assumptions C03_per_mole_to_energy.
+Print Assumptions C03_per_mole_roundtrip.
+Print Assumptions C03_text_roundtrip.
+Print Assumptions C03_text_roundtrip_conv.
+Print Assumptions C03_text_canonical_atoms.
 Print Assumptions C03_text_reader_examples.
